@@ -3,7 +3,7 @@
 //   - every SimTK_VERIF_TRACE record emitted by the hooks in AbstractIntegratorRep.cpp / CPodesIntegrator.cpp
 //     (none if the hooks are not applied in the tree under test),
 //   - constraint error norms of every returned state (C21 predicate).
-// usage: C19_drive <seed> <nscripts> [mode]      mode: rand (default) | w711 | wwin | c21
+// usage: C19_drive <seed> <nscripts> [mode]      mode: rand (default) | w711 | wwin | wcp | c21 | wc21 | wmin
 // All random choices derive from <seed> (splitmix64).  Doubles are printed with %a.
 #include "Simbody.h"
 #include "SimTKcommon/internal/VerifTrace.h"
@@ -18,6 +18,7 @@ struct Rec { std::string tag; std::vector<double> v; };
 static std::vector<Rec> g_recs;
 static int g_exitComm = -1; static double g_exitLow = 0, g_exitHigh = 0;   // last C19.exit record (hooks present only)
 static void sinkFn(const char* tag, int n, const double* v) {
+    if (strncmp(tag, "C19", 3) && strncmp(tag, "C21", 3) && strncmp(tag, "C22", 3)) return;   // other properties' hooks
     static const bool live = getenv("C19_LIVE") != 0;
     if (live) { fprintf(stderr, "T %s", tag); for (int i = 0; i < n; ++i) fprintf(stderr, " %a", v[i]); fprintf(stderr, "\n"); }
     if (!strcmp(tag, "C19.exit") && n >= 7) { g_exitComm = (int)v[0]; g_exitLow = v[5]; g_exitHigh = v[6]; }
@@ -75,6 +76,7 @@ static Integrator* makeInteg(int kind, const System& system, Real fixedStep) {
 struct Sys {
     MultibodySystem system; SimbodyMatterSubsystem matter; GeneralForceSubsystem forces;
     std::unique_ptr<MobilizedBody::Pin> p1, p2; std::unique_ptr<MobilizedBody::Slider> sl;
+    MobilizedBody b1, b2, b3;
     Sys() : matter(system), forces(system) {}
 };
 
@@ -87,6 +89,15 @@ static void buildSys(Sys& S, int sysKind) {
     } else if (sysKind == 1) {
         Force::UniformGravity(S.forces, S.matter, Vec3(0,-9.8,0));
         S.p1.reset(new MobilizedBody::Pin(S.matter.Ground(), Transform(), body, Transform(Vec3(0,1,0))));
+    } else if (sysKind == 3) {
+        // DESIGN 7.25: Ball - Gimbal chain and a Pin body, loop closed by a rod, a spring across
+        Body::Rigid hb(MassProperties(1.3, Vec3(0.1,0.2,-0.15), Inertia(Vec3(0.1,0.2,-0.15),1.3) + Inertia(0.5,0.6,0.7, 0.01,0.02,-0.03)));
+        Force::UniformGravity(S.forces, S.matter, Vec3(0,-9.8,0));
+        S.b1 = MobilizedBody::Ball(S.matter.Ground(), Transform(Vec3(0,0,0)), hb, Transform(Vec3(0,1,0)));
+        S.b2 = MobilizedBody::Gimbal(S.b1, Transform(Vec3(0,-1,0)), hb, Transform(Vec3(0,1,0)));
+        S.b3 = MobilizedBody::Pin(S.matter.Ground(), Transform(Vec3(1.5,0,0)), hb, Transform(Vec3(0,1,0)));
+        Constraint::Rod(S.b2, Vec3(0,-1,0), S.b3, Vec3(0,-1,0), 1.2);
+        Force::TwoPointLinearSpring(S.forces, S.b1, Vec3(0.2,0,0), S.b3, Vec3(0,0.3,0), 20, 0.8);
     } else {
         Force::UniformGravity(S.forces, S.matter, Vec3(0,-9.8,0));
         S.p1.reset(new MobilizedBody::Pin(S.matter.Ground(), Transform(), body, Transform(Vec3(0,1,0))));
@@ -128,8 +139,8 @@ static bool doCall(Integrator& integ, const System& system, Real report, Real sc
     Real qe = 0, ue = 0;
     try {
         system.realize(s, Stage::Velocity);
-        if (s.getNQErr()) qe = s.getQErr().normInf();
-        if (s.getNUErr()) ue = s.getUErr().normInf();
+        if (s.getNQErr()) qe = s.getQErr().normRMS();
+        if (s.getNUErr()) ue = s.getUErr().normRMS();
     } catch (...) { qe = ue = NaN; }
     Vec2 w(NaN, NaN);
     if (st == Integrator::ReachedEventTrigger) w = integ.getEventWindow();
@@ -150,7 +161,10 @@ int main(int argc, char** argv) {
         int kind = script % 9;
         if (mode == "w711") kind = 4;            // RungeKuttaMerson, as in DESIGN 7.11
         if (mode == "wwin") kind = 1 + script % 5;
-        int sysKind = (mode == "c21") ? 2 : (mode == "rand" ? R.k(3) : 1);
+        if (mode == "wcp") kind = 8;
+        if (mode == "wmin") kind = 1 + script % 2;                 // RungeKutta2, RungeKutta3
+        if (mode == "wc21") kind = (script % 2 == 0) ? 8 : 4;     // CPodes, and RungeKuttaMerson for contrast
+        int sysKind = (mode == "c21" || mode == "wmin") ? 2 : (mode == "wc21") ? 3 : (mode == "rand" ? R.k(3) : 1);
         if (mode == "rand" && sysKind == 2 && !R.p(0.5)) sysKind = 1;
         Sys S; buildSys(S, sysKind);
         // witness functions
@@ -168,12 +182,17 @@ int main(int argc, char** argv) {
         State s = S.system.realizeTopology(); S.system.realizeModel(s);
         if (sysKind == 0) { S.sl->setOneQ(s, 0, 0.3); }
         else if (sysKind == 1) { S.p1->setOneQ(s, 0, 1.0); }
+        else if (sysKind == 3) {
+            for (int i = 0; i < s.getNQ(); i++) s.updQ()[i] = 0.2 + 0.05*i;
+            for (int i = 0; i < s.getNU(); i++) s.updU()[i] = 0.3 - 0.04*i;
+            S.system.realize(s, Stage::Position); S.system.project(s, 1e-10); S.system.realize(s, Stage::Velocity);
+        }
         else { S.p1->setOneQ(s, 0, 0.4); S.p2->setOneQ(s, 0, 0.9); }
         const Real tStart = (mode == "rand" && R.p(0.3)) ? 0.25*R.k(5) : 0.0;
         s.setTime(tStart);
         const Real fixedStep = 0.004 + 0.02*R.u();
         std::unique_ptr<Integrator> integ(makeInteg(kind, S.system, fixedStep));
-        const Real acc = (mode == "c21") ? (R.p(0.5) ? 1e-3 : 1e-5) : 1e-3;
+        const Real acc = (mode == "c21") ? (R.p(0.5) ? 1e-3 : 1e-5) : (mode == "wc21") ? std::pow(10.0, -3 - 2*((script/2) % 3)) : (mode == "wmin") ? 1e-8 : 1e-3;
         integ->setAccuracy(acc);
         // options
         Real tFinal = -1; bool allowInterp = true, everyStep = false, projInterp = true; int limit = -1;
@@ -190,6 +209,7 @@ int main(int argc, char** argv) {
                 else if (o == 2) integ->setInitialStepSize(0.001 + 0.1*R.u());
             }
         }
+        if (mode == "wcp") everyStep = true;
         if (tFinal > 0) integ->setFinalTime(tFinal);
         if (!allowInterp) integ->setAllowInterpolation(false);
         if (everyStep) integ->setReturnEveryInternalStep(true);
@@ -212,6 +232,30 @@ int main(int argc, char** argv) {
             Real adv = integ->getAdvancedTime(), t = integ->getTime();
             Real sched2 = t + 0.25*(adv - t), report2 = t + 0.5*(adv - t);
             doCall(*integ, S.system, report2, sched2, st);
+            printf("END\n"); continue;
+        }
+        if (mode == "wmin") {
+            // a minimum step size that forbids meeting the accuracy: steps are accepted with a large error estimate
+            // and skip the projection ("not worth projecting")
+            integ.reset(makeInteg(kind, S.system, fixedStep)); integ->setAccuracy(acc);
+            integ->setMinimumStepSize(0.1); integ->setMaximumStepSize(0.2); integ->initialize(s);
+            doCall(*integ, S.system, 0.0, Infinity, st);
+            for (int k = 1; k <= 60; ++k) if (!doCall(*integ, S.system, 0.05*k, Infinity, st)) break;
+            printf("END\n"); continue;
+        }
+        if (mode == "wc21") {
+            // DESIGN 7.25: 200 reports 0.01 apart
+            doCall(*integ, S.system, 0.0, Infinity, st);
+            for (int k = 1; k <= 200; ++k) if (!doCall(*integ, S.system, 0.01*k, Infinity, st)) break;
+            printf("END\n"); continue;
+        }
+        if (mode == "wcp") {
+            // DESIGN 7.18 (b): CPodes with return-every-step; report and scheduled event coincide just ahead
+            doCall(*integ, S.system, 0.0, Infinity, st);
+            for (int call = 0; call < 25; ++call) {
+                Real t = integ->getTime(); Real r = t + 0.004*(1 + script);
+                if (!doCall(*integ, S.system, r, r, st)) break;
+            }
             printf("END\n"); continue;
         }
         if (mode == "wwin") {
